@@ -15,7 +15,7 @@ import random
 from checks import e2e_common
 
 TIE_PARTS = ["IstioModel.C01.GenTie" + x for x in ("T1", "T2", "T3", "T4", "T5", "T6", "T7", "P1", "P2", "P3", "P4", "P5", "P6", "S")]
-THEOREMS = TIE_PARTS + ["IstioModel.C01.GenTie", "IstioModel.C01.Theorems", "IstioModel.C01.NarrowTheorems",
+THEOREMS = TIE_PARTS + ["IstioModel.C01.GenTie", "IstioModel.C01.Theorems", "IstioModel.C01.NarrowTheorems", "IstioModel.C01.WorkloadTheorems",
                         "IstioModel.C01.ProtocolTheorems", "IstioModel.C01.ProtocolV2Theorems", "IstioModel.C01.Instantiation"]
 GENERATED = "IstioModel/Generated/C01Table.lean"
 
@@ -559,7 +559,7 @@ MANIFEST = {
                    "fresh clients vs a cold-started second server after histories over every config kind of the quantifier."),
     "level_note": ("Partial: the generators, the rebuilt indexes and the xDS cache are not modelled (covered by the rebuild / edsnarrow / "
                    "converge / e2e differentials: sidecar, router, waypoint, ztunnel-like clients, CDS/EDS/LDS/RDS/NDS/WDS/WAUTH, SotW + "
-                   "delta in e2e); WDS/WorkloadAuthorization decisions are not in the model. Trusted: Lean kernel + {propext, Quot.sound}; "
+                   "delta in e2e); of WDS/WorkloadAuthorization only the skip decisions are modelled. Trusted: Lean kernel + {propext, Quot.sound}; "
                    "the hand-written model (tied by the exhaustive table and the needs/edsnarrow streams); Spec.Affects (written from the "
                    "generators, a cross-check of the table only); pilot/pkg/xds/zz_verif_c01.go; feature flags at defaults. Two defects "
                    "found and fixed in /repo (3f2fe0c, 7cce3d7); four known findings (stale SAN after scale-to-zero, stale disable_mx in "
